@@ -178,17 +178,31 @@ structure AShape where
   opReg : BitVec 8
   imm   : Bytes
   isLea : Bool
+  moffs : Option (BitVec 8 × Nat) := none   -- `mov al|ax|eax|rax <-> [moffs]`: opcode A0..A3 of the ModRM-less form, register size
   deriving Repr, Inhabited
 
 def modrm (mod reg rm : BitVec 8) : BitVec 8 := (mod <<< 6) ||| (reg <<< 3) ||| rm
 def rexBytes : Option (BitVec 8) → Bytes
   | some r => [r] | none => []
 
+/-- `x86_should_use_movabs` (no segment override, no ModMR/ModRM option in the menu) -/
+def shouldUseMovabs (s : State) (regSize : Nat) (at_ : AddrT) (addr : BitVec 64) : Bool :=
+  if s.arch.is32 then true else
+  if at_ = .rel then false else
+  let addrI32 : Bool := (addr.truncate 32 : BitVec 32).signExtend 64 == addr
+  let direct : Bool :=
+    match (if at_ = .dflt then absLocation s else none) with
+    | some (base, so) =>
+      let instSize := (if regSize = 2 then 1 else 0) + (if regSize = 8 then 1 else 0) + 1 + 8
+      isInt32 (addr - (base + so + BitVec.ofNat 64 s.curOff + BitVec.ofNat 64 instSize))
+    | none => addrI32
+  if direct then false else decide (addr.toNat > 0xFFFFFFFF)
+
 /-- `EmitModSib`, `[ABSOLUTE | DISP32]` branch (x86assembler.cpp): 32-bit mode `[disp32]`; 64-bit mode the choice between
 `[rip + rel32]` (direct when the base is known and the target is in range, else a kAbsToRel relocation whose region ends
 after the trailing immediate) and the absolute `[disp32]` SIB form with the 67h / REX.W fix-up for addresses that are only
 representable zero-extended -/
-def x86MemAbs (s : State) (sh : AShape) (at_ : AddrT) (addr : BitVec 64) : State × Err :=
+def x86MemAbsM (s : State) (sh : AShape) (at_ : AddrT) (addr : BitVec 64) : State × Err :=
   let lo : BitVec 32 := addr.truncate 32
   if s.arch.is32 then
     if at_ = .rel then (s, .invalidAddress) else
@@ -229,6 +243,16 @@ def x86MemAbs (s : State) (sh : AShape) (at_ : AddrT) (addr : BitVec 64) : State
         else if at_ = .rel then (s, .invalidAddress)
         else absForm
     else absForm
+
+/-- `mov` with the accumulator and an absolute operand: the ModRM-less `A0..A3 moffs` form when `x86_should_use_movabs` says so
+(`EmitX86OpMovAbs`: the address is emitted with `register_size()` bytes), else the ordinary ModRM path -/
+def x86MemAbs (s : State) (sh : AShape) (at_ : AddrT) (addr : BitVec 64) : State × Err :=
+  match sh.moffs with
+  | some mo =>
+    if shouldUseMovabs s mo.2 at_ addr then
+      (s.emit (sh.pp ++ rexBytes sh.rex ++ [mo.1] ++ leBytes addr.toNat s.arch.regSize), .ok)
+    else x86MemAbsM s sh at_ addr
+  | none => x86MemAbsM s sh at_ addr
 
 /-! ### AArch64 -/
 
